@@ -28,6 +28,7 @@ import (
 	"strings"
 	"sync"
 	"testing"
+	"time"
 
 	"github.com/enbility/spine-go/api"
 	"github.com/enbility/spine-go/model"
@@ -122,6 +123,23 @@ type tkWorld struct {
 	valN       int
 	last       map[string]int // SPEC: value id of the last write the SPEC accepted, per local server feature address
 	everShared bool           // two connected devices announced one address at some point of this history
+	// pending write approvals: local server features [3] and [4] have an approval callback (long timeout: no timer fires)
+	cbMu   sync.Mutex
+	cbMsgs []*api.Message
+	appr   []*tkAppr   // every write the approval callback has received in this history, in order
+	epoch  map[int]int // number of connections SKI k has had
+	pw     map[int]int // approval-bound writes of the current connection of k (their counters restart with the connection)
+}
+
+// tkAppr: a write that waits (or waited) for the application's verdict, with the SPEC's view of it
+type tkAppr struct {
+	msg      *api.Message
+	k, epoch int
+	ctr      uint64
+	ent      string
+	se       string
+	live     bool   // SPEC: still pending by the property statement
+	why      string // SPEC: why not
 }
 
 type tkOldWriter struct {
@@ -164,7 +182,7 @@ func tkTree(dev string, state *model.NetworkManagementStateChangeType, ents []st
 
 func newTkWorld(ev *tkEvents, base int) *tkWorld {
 	w := &tkWorld{srv: map[string]*model.FeatureAddressType{}, rds: map[int]api.DeviceRemoteInterface{}, dev: map[int]int{}, alive: map[int]bool{}, ctr: map[int]uint64{}, ev: ev, base: base,
-		wr: map[int]*h.W{}, vals: map[string]int{}, last: map[string]int{}}
+		wr: map[int]*h.W{}, vals: map[string]int{}, last: map[string]int{}, epoch: map[int]int{}, pw: map[int]int{}}
 	l := spine.NewDeviceLocal("b", "m", "s", "c", "HEMS", model.DeviceTypeTypeEnergyManagementSystem, model.NetworkManagementFeatureSetTypeSmart)
 	for i := 1; i <= 4; i++ {
 		e := spine.NewEntityLocal(l, model.EntityTypeTypeCEM, spine.NewAddressEntityType([]uint{uint(i)}), 0)
@@ -172,6 +190,14 @@ func newTkWorld(ev *tkEvents, base int) *tkWorld {
 		f := e.GetOrAddFeature(model.FeatureTypeTypeLoadControl, model.RoleTypeServer)
 		f.AddFunctionType(model.FunctionTypeLoadControlLimitListData, true, true)
 		w.srv[strconv.Itoa(i)] = f.Address()
+		if i >= 3 {
+			f.SetWriteApprovalTimeout(10 * time.Minute)
+			_ = f.AddWriteApprovalCallback(func(m *api.Message) {
+				w.cbMu.Lock()
+				w.cbMsgs = append(w.cbMsgs, m)
+				w.cbMu.Unlock()
+			})
+		}
 		if i == 1 {
 			w.cl = e.GetOrAddFeature(model.FeatureTypeTypeLoadControl, model.RoleTypeClient)
 		}
@@ -190,6 +216,8 @@ func (w *tkWorld) connect(k, d int) {
 	w.l.SetupRemoteDevice(tkSki(k), w.wr[k])
 	w.rds[k] = w.l.RemoteDeviceForSki(tkSki(k))
 	w.dev[k], w.alive[k], w.ctr[k] = d, true, 100
+	w.epoch[k]++
+	w.pw[k] = 0
 	cl := model.CmdClassifierTypeReply
 	w.inject(k, model.DatagramType{Header: model.HeaderType{AddressSource: h.FA(tkDev(d), []uint{0}, 0), AddressDestination: h.FA("HEMS", []uint{0}, 0),
 		MsgCounter: util.Ptr(model.MsgCounterType(1)), MsgCounterReference: util.Ptr(model.MsgCounterType(1)), CmdClassifier: &cl},
@@ -332,6 +360,7 @@ func tkWithout(l []string, drop func(string) bool) (kept, gone []string) {
 type tkStats struct {
 	grants, grantOk, drops, dropsNontrivial, sharedOps, ops int
 	served, servedWriteOk, servedNotified, servedSubOk      int
+	pwrites, pwritesPending, verdicts, verdictsTaken        int
 }
 
 // runTkHistory executes ops on a fresh world, compares with the driver (nil: monitor only), judges the SPEC.
@@ -508,6 +537,12 @@ func runTkHistory(r *h.Report, d *h.Driver, ev *tkEvents, base int, facts string
 				impl, mdl = strip(impl), strip(mdl)
 			}
 			st.drops++
+			// SPEC view of the pending approvals: those of the removed device / of the removed entity are gone
+			for _, a := range w.appr {
+				if a.live && a.k == k && wasAlive && (f[0] == "drop" || (known && ent != "0" && a.ent == ent)) {
+					a.live, a.why = false, op
+				}
+			}
 			// ---- SPEC (model-free), judged under the assumption of C10: distinct device addresses
 			if !shared {
 				postS, postB, postCS, postCB, postC := w.observe()
@@ -582,6 +617,34 @@ func runTkHistory(r *h.Report, d *h.Driver, ev *tkEvents, base int, facts string
 					}
 				}
 			}
+		case "pwrite":
+			k := atoi(1)
+			// (shared device addresses: the write gate compares the client feature's ADDRESS — outside the assumption and the model)
+			if !w.alive[k] || w.everShared || w.shared() {
+				continue
+			}
+			impl, mdl = w.pwrite(r, ask, k, done, st)
+			if impl == "" {
+				continue
+			}
+		case "verdict":
+			if len(w.appr) == 0 || w.everShared {
+				continue
+			}
+			impl, mdl = w.verdict(r, ask, w.appr[atoi(1)%len(w.appr)], len(f) > 2 && f[2] == "deny", done, st)
+		case "sweep":
+			if len(w.appr) == 0 || w.everShared {
+				continue
+			}
+			var is, ms []string
+			for _, a := range w.appr {
+				i, m := w.verdict(r, ask, a, false, done, st)
+				is, ms = append(is, i), append(ms, m)
+			}
+			impl, mdl = strings.Join(is, " "), strings.Join(ms, " ")
+			if d == nil {
+				mdl = ""
+			}
 		default:
 			continue
 		}
@@ -615,9 +678,143 @@ func runTkHistory(r *h.Report, d *h.Driver, ev *tkEvents, base int, facts string
 			}
 		}
 	}
+	// at the end of every history: the verdict for every write the approval callback ever received
+	if len(w.appr) > 0 && !w.everShared {
+		var is, ms []string
+		for _, a := range w.appr {
+			i, m := w.verdict(r, ask, a, false, append(done, "(final sweep)"), st)
+			is, ms = append(is, i), append(ms, m)
+		}
+		if d != nil && strings.Join(is, " ") != strings.Join(ms, " ") {
+			mismatch(append(done, "sweep"), strings.Join(is, " "), strings.Join(ms, " "), "verdicts of the final sweep")
+		}
+	}
 	if agreed {
 		r.Traces++
 	}
+}
+
+// ---------- pending write approvals
+
+func (w *tkWorld) takeCb() []*api.Message {
+	w.cbMu.Lock()
+	defer w.cbMu.Unlock()
+	m := w.cbMsgs
+	w.cbMsgs = nil
+	return m
+}
+
+// pwrite: connection k writes (acknowledgement requested) to a local server feature with an approval callback — from a
+// client feature the OBSERVED bindings authorise for [3] or [4] if there is one, else from its first entity to [3].
+// impl: "pending <epoch>" (the callback received the write, nothing was answered) or "denied" (error result).
+func (w *tkWorld) pwrite(r *h.Report, ask func(string) string, k int, done []string, st *tkStats) (impl, mdl string) {
+	dispInit()
+	fn := dispFnID[dispFnLimit]
+	_, preB, _, _, _ := w.observe()
+	ent, cf, se := "", uint(1), "3"
+	for _, b := range preB {
+		i := strings.Index(b, "<-")
+		cl := strings.Split(b[i+2:], ":")
+		if (strings.HasPrefix(b, "3/") || strings.HasPrefix(b, "4/")) && len(cl) == 3 && cl[0] == strconv.Itoa(k) {
+			ef := strings.Split(cl[2], "/")
+			n, _ := strconv.Atoi(ef[1])
+			ent, cf, se = ef[0], uint(n), b[:1]
+			break
+		}
+	}
+	bound := ent != ""
+	if !bound {
+		for _, e := range tkBookEnts {
+			if regexpEntityKnown(w, k, e) {
+				ent = e
+				break
+			}
+		}
+		if ent == "" {
+			return "", ""
+		}
+	}
+	srv := w.srv[se]
+	w.pw[k]++
+	ctr := uint64(500 + w.pw[k]) // restarts with every connection of the SKI: a re-connection reuses the counters
+	w.valN++
+	cmd := dispCmd(fn, w.valN, false)
+	cls, ack := model.CmdClassifierTypeWrite, true
+	w.drain()
+	w.takeCb()
+	w.inject(k, model.DatagramType{Header: model.HeaderType{AddressSource: h.FA(tkDev(w.dev[k]), regParseEnt(ent), cf), AddressDestination: h.FA("HEMS", regParseEnt(se), uint(*srv.Feature)),
+		MsgCounter: util.Ptr(model.MsgCounterType(ctr)), CmdClassifier: &cls, AckRequest: &ack}, Payload: model.PayloadType{Cmd: []model.CmdType{cmd}}})
+	h.Settle(w.base)
+	w.ev.take()
+	outs, _ := w.outputs()
+	cbs := w.takeCb()
+	st.pwrites++
+	switch {
+	case len(cbs) == 1 && len(outs) == 0:
+		impl = fmt.Sprintf("pending %d", w.epoch[k])
+		w.appr = append(w.appr, &tkAppr{msg: cbs[0], k: k, epoch: w.epoch[k], ctr: ctr, ent: ent, se: se, live: true})
+		st.pwritesPending++
+	case len(cbs) == 0 && len(outs) == 1 && strings.Contains(outs[0], fmt.Sprintf("%d>result:%d:", k, ctr)) && !strings.Contains(outs[0], fmt.Sprintf("result:%d:0:", ctr)):
+		impl = "denied"
+	default:
+		impl = fmt.Sprintf("callbacks=%d outputs=%s", len(cbs), tkSet(outs))
+	}
+	if !w.everShared {
+		want := "denied"
+		if bound {
+			want = fmt.Sprintf("pending %d", w.epoch[k])
+		}
+		if impl != want {
+			r.SpecFail("C10/keys-other-peer-not-served", done, fmt.Sprintf("write of connection %d (client %s/%d) to %s, which asks the application: %s, expected %s (bound by the observed bindings: %v)", k, ent, cf, h.AddrS(srv), impl, want, bound))
+		}
+	}
+	mdl = ask(fmt.Sprintf("pwrite %d %d %s %d %s %d", k, ctr, ent, cf, se, *srv.Feature))
+	return
+}
+
+// verdict: the application's verdict for a write the callback received earlier (of whichever connection epoch).
+// impl: "taken" (a result referring to the write was sent) or "ignored" (nothing was written).
+func (w *tkWorld) verdict(r *h.Report, ask func(string) string, a *tkAppr, deny bool, done []string, st *tkStats) (impl, mdl string) {
+	srv := w.srv[a.se]
+	fl := w.l.FeatureByAddress(srv)
+	w.drain()
+	e := model.ErrorType{ErrorNumber: 0}
+	if deny {
+		e = model.ErrorType{ErrorNumber: 7}
+	}
+	_ = h.Recover(func() { fl.ApproveOrDenyWrite(a.msg, e) })
+	h.Settle(w.base)
+	w.ev.take()
+	outs, toOld := w.outputs()
+	impl = "ignored"
+	for _, o := range outs {
+		if strings.Contains(o, fmt.Sprintf(">result:%d:", a.ctr)) {
+			impl = "taken"
+		}
+	}
+	st.verdicts++
+	what := fmt.Sprintf("verdict for the write %d of connection %d (epoch %d, entity %s) pending on %s", a.ctr, a.k, a.epoch, a.ent, h.AddrS(srv))
+	if len(toOld) > 0 {
+		r.SpecFail("C10/keys-datagram-to-removed-connection", done, fmt.Sprintf("%s: written to a removed connection: %s", what, tkSet(toOld)))
+	}
+	if !w.everShared {
+		switch {
+		case impl == "taken" && !a.live && a.why != "verdict":
+			r.SpecFail("C10/keys-pending-approval-survives-teardown", done, fmt.Sprintf("%s: taken although the approval went with %q (outputs %s)", what, a.why, tkSet(outs)))
+		case impl == "taken" && !a.live:
+			r.SpecFail("C10/keys-verdict-taken-twice", done, fmt.Sprintf("%s: taken a second time (outputs %s)", what, tkSet(outs)))
+		case impl == "ignored" && a.live:
+			r.SpecFail("C10/keys-pending-approval-of-other-lost", done, fmt.Sprintf("%s: ignored although no teardown referred to that device or entity", what))
+		}
+	}
+	if impl == "taken" {
+		st.verdictsTaken++
+		if a.live {
+			a.live, a.why = false, "verdict"
+		}
+	}
+	mdl = ask(fmt.Sprintf("verdict %d %d %d %s %d", a.k, a.epoch, a.ctr, a.se, *srv.Feature))
+	return
 }
 
 // ---------- "continues to be served": requests of the other peers after a teardown
@@ -717,12 +914,16 @@ func (w *tkWorld) serveOthers(r *h.Report, drv func() *h.Driver, mismatch func([
 		ent := ents[(opIdx+q)%len(ents)]
 		cf := uint(1 + (opIdx+q)%2)
 		se := strconv.Itoa(1 + (opIdx+q)%4)
+		seW := strconv.Itoa(1 + (opIdx+q)%2) // writes and reads go to the server features without approval callback
 		_, preB, _, _, _ := w.observe()
-		// prefer a write from a client feature of q that the observed bindings authorise (two times out of three)
-		wEnt, wCf, wSe := ent, cf, se
-		if opIdx%3 != 0 {
+		// prefer a write from a client feature of q that the observed bindings authorise (three times out of four)
+		wEnt, wCf, wSe := ent, cf, seW
+		if opIdx%4 != 0 {
 			for _, b := range preB {
 				i := strings.Index(b, "<-")
+				if strings.HasPrefix(b, "3/") || strings.HasPrefix(b, "4/") {
+					continue
+				}
 				cl := strings.Split(b[i+2:], ":") // q, dev, ent/feat
 				if len(cl) == 3 && cl[0] == strconv.Itoa(q) {
 					ef := strings.Split(cl[2], "/")
@@ -903,23 +1104,31 @@ func genTkHistory(rng regRng, n int, shared bool) []string {
 	ents := []string{"1", "1", "1.1", "2"}
 	for len(ops) < n {
 		switch x := rng.Intn(100); {
-		case x < 34:
+		case x < 28:
 			ops = append(ops, fmt.Sprintf("sub %d %s %d %d 1", pick(), ents[rng.Intn(len(ents))], 1+rng.Intn(2), 1+rng.Intn(3)))
-		case x < 52:
+		case x < 46:
 			se := strconv.Itoa(1 + rng.Intn(4))
 			if bound[se] && rng.Intn(4) != 0 {
 				continue
 			}
 			bound[se] = true
 			ops = append(ops, fmt.Sprintf("bind %d %s %d %s 1", pick(), ents[rng.Intn(len(ents))], 1+rng.Intn(2), se))
-		case x < 66:
+		case x < 56:
 			k := pick()
 			kind := "csub"
 			if rng.Intn(2) == 0 {
 				kind = "cbind"
 			}
 			ops = append(ops, fmt.Sprintf("%s %d %s", kind, alive[k]+h.B2i(rng.Intn(10) == 0), tkBookEnts[rng.Intn(len(tkBookEnts))]))
-		case x < 78:
+		case x < 66:
+			ops = append(ops, fmt.Sprintf("pwrite %d", pick()))
+		case x < 70:
+			v := "ok"
+			if rng.Intn(3) == 0 {
+				v = "deny"
+			}
+			ops = append(ops, fmt.Sprintf("verdict %d %s", rng.Intn(8), v))
+		case x < 81:
 			k := pick()
 			if rng.Intn(8) == 0 {
 				k = 1 + rng.Intn(tkNConn)
@@ -931,9 +1140,12 @@ func genTkHistory(rng regRng, n int, shared bool) []string {
 					delete(bound, se)
 				}
 			}
-		case x < 90:
+		case x < 91:
 			e := []string{"1", "1.1", "2", "0", "3"}[rng.Intn(5)]
 			ops = append(ops, fmt.Sprintf("dropent %d %s", pick(), e))
+			if rng.Intn(2) == 0 {
+				ops = append(ops, "sweep")
+			}
 		default:
 			k := 1 + rng.Intn(tkNConn)
 			if _, ok := alive[k]; ok {
@@ -968,6 +1180,10 @@ var tkCorpus = [][]string{
 	{"connect 1 101", "connect 3 101", "sub 1 1 1 1 1", "sub 3 1 1 1 1", "bind 3 1 1 1 1", "csub 101 1", "drop 1"},
 	{"connect 1 101", "connect 3 101", "sub 1 1 1 1 1", "sub 3 1 1 1 1", "bind 3 1 1 1 1", "cbind 101 1.1", "dropent 1 1", "drop 3"},
 	{"connect 2 102", "drop 4", "drop 2", "drop 2", "connect 2 103", "sub 2 2 2 4 1", "drop 2"},
+	// pending approvals: two connections with identical numbering and identical counters; teardown of one; re-connection under
+	// the same SKI reusing the counter (the verdict for the old connection's message must be ignored, the new one taken)
+	{"connect 1 101", "connect 2 102", "bind 1 1 1 3 1", "bind 2 1 1 4 1", "pwrite 1", "pwrite 2", "pwrite 1", "drop 1", "sweep", "connect 1 101", "bind 1 1 1 3 1", "pwrite 1", "pwrite 2", "verdict 0 ok", "verdict 3 ok", "dropent 2 1", "sweep"},
+	{"connect 1 101", "connect 2 102", "bind 1 2 1 3 1", "bind 2 1 1 4 1", "pwrite 1", "pwrite 2", "dropent 1 1", "verdict 0 ok", "dropent 1 2", "verdict 0 deny", "verdict 1 deny", "pwrite 1"},
 }
 
 func TestTeardownKeys(t *testing.T) {
@@ -1010,7 +1226,9 @@ func TestTeardownKeys(t *testing.T) {
 		r.Floor("granted share of subscription / binding requests", st.grantOk, st.grants, 0.45)
 		r.Floor("teardowns that removed entries while entries of others stayed (distinct addresses)", st.dropsNontrivial, st.drops, 0.10)
 		r.Floor("ops in worlds with a shared device address", st.sharedOps, st.ops, 0.03)
-		r.Floor("requests of other peers after a teardown: writes the observed bindings authorise (accepted)", st.servedWriteOk, st.served, 0.03)
+		r.Floor("requests of other peers after a teardown: writes the observed bindings authorise (accepted)", st.servedWriteOk, st.served, 0.02)
+		r.Floor("writes to a feature with approval callback that became pending", st.pwritesPending, st.pwrites, 0.10)
+		r.Floor("verdicts taken", st.verdictsTaken, st.verdicts, 0.10)
 		r.Floor("requests of other peers after a teardown: subscription requests granted", st.servedSubOk, st.served, 0.05)
 	}
 	rerun := func(q *h.Report, ops []string) { runTkHistory(q, d, ev, base, facts, ops, &tkStats{}) }
